@@ -1678,7 +1678,9 @@ class ContractionTree:
                     tree.info[node].pop(k, None)
 
         tree.already_optimized.clear()
-        tree.contraction_cores.clear()
+        # the index order of any modified node feeds into the contraction
+        # 'recipes' of all its ancestors -> reset these and compiled cores
+        tree.reset_contraction_indices()
 
         return tree
 
@@ -1723,9 +1725,10 @@ class ContractionTree:
                 tree._remove_node(p)
                 tree.contract_nodes_pair(l, r)
 
-        # reset caches
+        # reset caches, including the index ordering information of nodes
+        # which depend on the re-created nodes, and any compiled cores
         tree.already_optimized.clear()
-        tree.contraction_cores.clear()
+        tree.reset_contraction_indices()
 
         return tree
 
@@ -1945,8 +1948,9 @@ class ContractionTree:
             if progbar:
                 pbar.close()
 
-        # invalidate any compiled contractions
-        tree.contraction_cores.clear()
+        # invalidate any compiled contractions, and the index ordering
+        # information of nodes which depend on the re-created nodes
+        tree.reset_contraction_indices()
 
         return tree
 
